@@ -16,6 +16,29 @@ import (
 	"context"
 )
 
+func hasReplayDriver(r *Report, o *Obl) bool {
+	return findReplayDriver(r, o) != ""
+}
+
+func findReplayDriver(r *Report, o *Obl) string {
+	driver := ""
+	cands := []string{safeFileName(o.Unit)}
+	if i := strings.Index(o.Unit, ".lemma."); i >= 0 {
+		cands = append(cands, safeFileName(o.Unit[:i])+".lemma")
+	}
+	if i := strings.Index(o.Unit, "."); i >= 0 {
+		cands = append(cands, safeFileName(o.Unit[:i])+".any")
+	}
+	for _, c := range cands {
+		p := filepath.Join(r.Verif, "replay", "drivers", c+"_test.go")
+		if _, err := os.Stat(p); err == nil {
+			driver = p
+			break
+		}
+	}
+	return driver
+}
+
 func runReplayDriver(r *Report, o *Obl, path string) bool {
 	driver := ""
 	cands := []string{safeFileName(o.Unit)}
